@@ -90,6 +90,14 @@ def run(ctx):
     ctx.rule("R16.k", "class schema model: JSONSerialization.class__schema interpreted for tuples of classes ((int, float), (float, int), (int, str), (str, int, float)): the schema admits the "
                       "JSON type of the instances of EVERY class of the tuple (`number` for float even when int comes first)", floor=1)
     class_schema_model(ctx, "R16.k")
+    ctx.rule("R16.p", "the text that must validate is the value the codecs produced: JSONSerialization.dumps is plain json.dumps(x) (a float rounded on the way out can land ON an exclusive bound "
+                      "its value was inside of) -- shared with R15.f", floor=2)
+    from checks.c15 import transport_is_plain_json
+    transport_is_plain_json(ctx, "R16.p")
+    ctx.rule("R16.l", "ListProxy model (shared with R18.j): after every mutator the label mapping -- from which selector_schema takes the `anyOf` types -- and the list of objects -- its `enum` -- "
+                      "describe the same objects", floor=1)
+    from checks import listproxy_model
+    listproxy_model.report(ctx, "R16.l")
     ctx.rule("R16.w", "selector schema model: selector_schema / objectselector_schema interpreted for 0, 1 and 2 objects never emit an empty `anyOf` / `allOf` / `oneOf` (the keyword requires a "
                       "non-empty array: the schema of a Selector without objects would not be a JSON Schema)", floor=1)
     selector_schema_wellformed(ctx, "R16.w")
